@@ -603,6 +603,9 @@ def rules(ctx):
     r6_put_out_of_place(ctx)
     r7_auto_fork_scoped(ctx)
     r8_clone_keeps_the_snapshot(ctx)
+    # a revert restores `_values` from `_last_fork`: nothing else in a State may remember values (same rule as C01.R1d)
+    from .c01 import r1d_no_other_cache
+    r1d_no_other_cache(ctx, rid="C02.R9")
     ctx.trust("torch.where selects element-wise without arithmetic on the unselected operand")
     ctx.assume("samplers are the only callers of State.revert during sampling (checked for C13)")
 
